@@ -1,6 +1,8 @@
 package interp
 
 import (
+	"go/types"
+
 	"golang.org/x/tools/go/ssa"
 )
 
@@ -89,4 +91,38 @@ func init() {
 		}
 		return int64(-1)
 	}
+}
+
+// sort.Slice / sort.SliceStable on a slice held in an interface: insertion sort, which is what package sort itself
+// runs for slices of up to 12 elements (so that the order of elements that compare equal is the real one); longer
+// slices are sorted the same way only for SliceStable, whose result does not depend on the algorithm.
+func sortSliceIntrinsic(stable bool) func(in *Interp, caller *frame, fn *ssa.Function, args []Value) Value {
+	return func(in *Interp, caller *frame, fn *ssa.Function, args []Value) Value {
+		x, ok := args[0].(Iface)
+		if !ok || x.T == nil {
+			in.throw("explicit", "sort.Slice of a non-slice", Iface{T: types.Typ[types.String], V: "sort.Slice of a non-slice"})
+		}
+		xs, ok := x.V.([]Value)
+		if !ok {
+			in.unsupported("sort.Slice on " + x.T.String())
+		}
+		if !stable && len(xs) > 12 {
+			in.unsupported("sort.Slice on more than 12 elements (pdqsort is not modelled)")
+		}
+		for i := 1; i < len(xs); i++ {
+			for j := i; j > 0; j-- {
+				r := in.call(caller, args[1], []Value{int64(j), int64(j - 1)})
+				if !in.branchVal(r) {
+					break
+				}
+				xs[j], xs[j-1] = xs[j-1], xs[j]
+			}
+		}
+		return nil
+	}
+}
+
+func init() {
+	intrinsics["sort.Slice"] = sortSliceIntrinsic(false)
+	intrinsics["sort.SliceStable"] = sortSliceIntrinsic(true)
 }
